@@ -352,6 +352,7 @@ class OutgoingRIB(Cache):
             return
         attr_af_nlri = self._new_attr_af_nlri
         new_attr = self._new_attribute
+        new_nlri = self._new_nlri
 
         # Get ready to accept more data
         self._new_nlri = {}
@@ -394,10 +395,28 @@ class OutgoingRIB(Cache):
 
         prefix_counts: dict[FamilyTuple, dict[bytes, int]] = {}
 
+        # routes whose current (last queued) announce has already been yielded
+        current_sent: set[bytes] = set()
+
         # Generate Updates for announces from _new_attr_af_nlri
         # All routes here are announces (add_to_rib only handles announces)
         for attr_index, per_family in attr_af_nlri.items():
             for family, routes in per_family.items():
+                if not routes:
+                    continue
+
+                # An announce superseded before it was sent (the same route queued again with other
+                # attributes, or withdrawn since) must not reach the peer after its replacement:
+                # the peer would end up with the stale attributes, or with a withdrawn route.
+                live: dict[bytes, 'Route'] = {}
+                for route_index, route in routes.items():
+                    queued = new_nlri.get(route_index, None)
+                    if queued is route:
+                        current_sent.add(route_index)
+                    elif queued is None or route_index in current_sent:
+                        continue
+                    live[route_index] = route
+                routes = live
                 if not routes:
                     continue
 
